@@ -38,7 +38,7 @@ def login_records(ctx):
 def run(tier):
     t0 = time.time()
     # all login messages: shards are cheap, so explore them with more profiles than C01 does
-    ctx = CC.explore(tier, tag="c14", nprof=4 if tier == "quick" else 8)
+    ctx = CC.explore(tier, tag="c14", nprof=6 if tier == "quick" else 24, only="@login")
     res = model(ctx["ldir"])
     v = C.Verdicts(PROP)
     embeds = [r for r in res.replay if r.get("kind") == "embed"]
